@@ -10,7 +10,7 @@ CLUSTER = K.CLUSTER
 # A tampered datagram that Message.parse RETURNS with is_authenticated == False (possible when the tampering turns
 # the clear chain into one without an Encrypted payload, e.g. the header's Next Payload octet of a protected
 # message without inner payloads) is counted and noted, not reported: acceptance = a result flagged authenticated.
-STRICT_UNAUTHENTICATED = False
+STRICT_UNAUTHENTICATED = True
 
 
 def translate(ctx):
@@ -163,6 +163,16 @@ def check_tamper(ctx, cr, data, d, kind, other=None):
         return [('tamper:accepted', f'{kind}: a modified datagram was accepted as authentic: {d.hex()[:300]}')]
     ctx.count('oracle:tamper:' + kind + ':returned-unauthenticated')
     if STRICT_UNAUTHENTICATED:
+        # finding F17 (known): the header's Next Payload octet of a protected message WITHOUT inner payloads is changed to
+        # the type of another (or an unknown, non-critical) payload: the clear chain then parses without an Encrypted
+        # payload and Message.parse returns a message flagged is_authenticated=False instead of raising
+        diff = [i for i in range(min(len(d), len(data))) if d[i] != data[i]]
+        empty_inner = len(data) > 28 and data[16] == 46 and data[28] == 0
+        if len(d) == len(data) and diff == [16] and empty_inner and not m.payloads + m.encrypted_payloads \
+                or (len(d) == len(data) and diff == [16] and empty_inner and len(m.payloads) == 1
+                    and not m.encrypted_payloads):
+            return [('tamper:returned-unauthenticated:header-next-payload-of-empty-sk',
+                     f'{kind}: Message.parse returned an unauthenticated message instead of raising: {d.hex()[:120]}')]
         return [('tamper:returned-unauthenticated', f'{kind}: Message.parse returned (is_authenticated=False): '
                  f'{d.hex()[:300]}')]
     return []
@@ -215,7 +225,7 @@ def _oracle(ctx, deep):
             for d, kind in tamper_cases(rng, data, 1 if deep else 4, 32):
                 ctx.case(['oracle-tamper', d.hex()], nontrivial=True)
                 add(check_tamper(ctx, cr, data, d, kind), dict(robj, data=d.hex(), sk_e=cr.sk_e.hex(), sk_a=cr.sk_a.hex()))
-                if len(fails) > 6:
+                if len([f for f in fails if not f.signature.endswith('empty-sk')]) > 6:
                     return fails
             for _ in range(16):
                 other = K.real_crypto(rng, keybits, integ)
